@@ -188,6 +188,13 @@ def corpus():
                 [[1.0, 2.0, 3.0, 4.0, 5.0, 6.0], [5.0, 6.0, 7.0, 8.0, 2.0, 1.0], [9.0, 10.0, 11.0, 12.5, 3.0, 0.5], [4.0, 3.0, 2.0, 1.0, 0.0, -1.0],
                  [7.0, 7.5, 8.0, 8.5, 9.0, 9.5]], ["affine", [2.0, 1.0, 0.5, -3.0]], "linear", True, {"region": [1.5, 10.5, 2.25, 21.0], "shape": (4, 5)},
                 "corpus-pg-antialias-subregion"),
+          # NO antialiasing and a requested grid far coarser than the data: the projected cells are interpolated as they are (no block means)
+          mk_pg([0.0, 1.0, 2.0, 3.0, 4.0, 5.0], [10.0, 20.0, 30.0, 40.0, 50.0],
+                [[1.0, 2.0, 3.0, 4.0, 5.0, 6.0], [5.0, 6.0, 7.0, 8.0, 2.0, 1.0], [9.0, 10.0, 11.0, 12.5, 3.0, 0.5], [4.0, 3.0, 2.0, 1.0, 0.0, -1.0],
+                 [7.0, 7.5, 8.0, 8.5, 9.0, 9.5]], ["affine", [2.0, 1.0, 0.5, -3.0]], "linear", False, {"shape": (2, 3)}, "corpus-pg-coarse-no-antialias"),
+          mk_pg([0.0, 1.0, 2.0, 3.0, 4.0, 5.0], [10.0, 20.0, 30.0, 40.0, 50.0],
+                [[1.0, 2.0, 3.0, 4.0, 5.0, 6.0], [5.0, 6.0, 7.0, 8.0, 2.0, 1.0], [9.0, 10.0, 11.0, 12.5, 3.0, 0.5], [4.0, 3.0, 2.0, 1.0, 0.0, -1.0],
+                 [7.0, 7.5, 8.0, 8.5, 9.0, 9.5]], ["shear", [0.5]], "nearest", False, {"shape": (2, 2)}, "corpus-pg-coarse-no-antialias"),
           # known finding F1: Clough-Tocher overshoots the input range even with antialiasing
           mk_pg([-3.5, -2.5, -1.5, -0.5, 0.5, 1.5], [1.5, 2.5, 3.5, 4.5],
                 [[8.25, -0.5, 8.0, -2.0, -2.75, -0.25], [0.5, 6.75, -0.75, -1.25, 2.0, 5.5], [-6.5, -7.75, 3.25, -3.75, -4.5, -3.5],
@@ -486,7 +493,7 @@ def oracle(case, io):
                 return f"NaN inside the convex hull of the projected data points at ({x}, {y})"
             if v is not None and (antialias or method in ("linear", "nearest")) and not (vmin - 1e-9 <= v <= vmax + 1e-9):
                 return f"value {v} outside the range [{vmin}, {vmax}] of the input"
-    if antialias and method in ("nearest", "linear") and ("region" in kw or "spacing" in kw or "shape" in kw):
+    if method in ("nearest", "linear") and ("region" in kw or "spacing" in kw or "shape" in kw):
         # the documented pipeline by hand, from public pieces: block means of the projected cells in blocks of the OUTPUT spacing laid over the
         # region of the projected DATA (not the requested output region), interpolated onto the output grid, masked by the hull of the projected cells
         import warnings
@@ -497,7 +504,10 @@ def oracle(case, io):
             oshape = tuple(kw.get("shape", (len(gn), len(ge))))
             osp = kw.get("spacing", vd.coordinates.shape_to_spacing(oreg, oshape))
             try:
-                bc, bd = vd.BlockReduce(np.mean, spacing=osp, region=dreg).filter((pe, pn), np.array([c[2] for c in cells]))
+                if antialias:
+                    bc, bd = vd.BlockReduce(np.mean, spacing=osp, region=dreg).filter((pe, pn), np.array([c[2] for c in cells]))
+                else:          # without antialiasing the projected cells themselves are interpolated, however coarse the requested grid
+                    bc, bd = (pe, pn), np.array([c[2] for c in cells])
                 gr = (vd.KNeighbors() if method == "nearest" else vd.Linear()).fit(bc, bd).grid(region=oreg, spacing=osp, data_names=["v"])
                 exp = vd.convexhull_mask((pe, pn), grid=gr).v.values
             except Exception:  # noqa: BLE001  (degenerate block means: outside the property, see _degenerate_antialias)
@@ -505,8 +515,9 @@ def oracle(case, io):
         if exp is not None:
             got = np.array([[np.nan if v is None else v for v in row] for row in r["values"]], dtype=float)
             if got.shape != exp.shape or not np.allclose(got, exp, rtol=1e-9, atol=1e-9, equal_nan=True):
-                return ("with antialias=True and a requested region / spacing / shape the result is not the block means (blocks of the output spacing over "
-                        "the region of the projected data) interpolated onto the requested grid and masked by the hull of the projected cells")
+                return ((f"with antialias={antialias} and a requested region / spacing / shape the result is not the " +
+                         ("block means (blocks of the output spacing over the region of the projected data)" if antialias else "projected cells"))
+                        + " interpolated onto the requested grid and masked by the hull of the projected cells")
     if proj[0] == "affine" and not antialias and not kw and all(c is not None for row in vals for c in row):
         pa = proj[1]
         exp_e = sorted(pa[0] * x + pa[1] for x in ge)
